@@ -28,7 +28,7 @@ m("c02-triple-read-as-double", ["C02", "C03"], "bond.py", "self.bond_type = rc.B
 m("c03-dollar-bonds-lt", ["C03"], "bond.py", '''        if self.descriptor == "$" and other.descriptor == "$":
             return True''', '''        if self.descriptor == "$" and other.descriptor in ("$", "<"):
             return True''')
-m("c03-ids-above-9-ignored", ["C03"], "bond.py", "        if self.descriptor_id != other.descriptor_id:\n            return False", "        if self.descriptor_id != other.descriptor_id and not (str(self.descriptor_id) > '9' and str(other.descriptor_id) > '9' and len(str(self.descriptor_id)) > 1 and len(str(other.descriptor_id)) > 1):\n            return False")
+m("c03-ids-above-9-ignored", ["C03"], "bond.py", "        if self.descriptor_id != other.descriptor_id:\n            return False", "        if self.descriptor_id != other.descriptor_id and not (isinstance(self.descriptor_id, int) and isinstance(other.descriptor_id, int) and self.descriptor_id >= 10 and other.descriptor_id >= 10):\n            return False")
 m("c03-bond-order-ignored", ["C03"], "bond.py", "        if self.bond_type != other.bond_type:\n            return False", "        if False:\n            return False")
 # ---- C04
 m("c04-compat-check-dropped", ["C04"], "mol_gen.py", "        if not other_bond_descriptors[other_bond_idx].is_compatible(", "        if False and not other_bond_descriptors[other_bond_idx].is_compatible(")
